@@ -35,12 +35,21 @@ class Shape(object):
         elif multi == 'setof':
             field = univ.SetOf(componentType=any_spec)
         self.schemas = {g: gen.build(t) for g, t in typemap.items()}
-        self.open = opentype.OpenType('id', {self.key(g): s for g, s in self.schemas.items()})
+        full = {self.key(g): s for g, s in self.schemas.items()}
+        # the type map is the caller's dict, kept by reference: mappings may be registered after the schema is declared
+        # (late: the dict is empty at declaration; half: one entry at declaration, the rest later)
+        self.map_history = ['declared', 'late', 'half'][(len(typemap) + (tagging[1] if tagging else 0)) % 3]
+        the_map = dict(full) if self.map_history == 'declared' else {}
+        if self.map_history == 'half' and full:
+            k0 = sorted(full, key=str)[0]
+            the_map[k0] = full[k0]
+        self.open = opentype.OpenType('id', the_map)
         id_type = univ.Integer() if id_kind == 'int' else univ.ObjectIdentifier()
         cls = univ.Sequence if container == 'seq' else univ.Set
         self.schema = cls(componentType=namedtype.NamedTypes(
             namedtype.NamedType('id', id_type),
             namedtype.NamedType('value', field, openType=self.open)))
+        the_map.update(full)
 
     def key(self, g):
         return univ.Integer(g) if self.id_kind == 'int' else univ.ObjectIdentifier(g)
